@@ -1,14 +1,14 @@
 #!/bin/bash
-# Runs every claimed property's quick (or given) tier sequentially; prints one status line per property.
+# Runs a tier (default quick) of every claimed property, N lanes in parallel (default 1); one status line each.
 cd "$(dirname "$0")/.."
-tier=${1:-quick}
+tier=${1:-quick}; lanes=${2:-1}
+mkdir -p /tmp/verif-runall
 ids=$(python3 -c "import json;print(' '.join(p['property_id'] for p in json.load(open('MANIFEST.json'))['checks']))")
-rc=0
-for id in $ids; do
-  t0=$(date +%s)
-  out=$(./bin/check $id $tier 2>&1); r=$?
-  t1=$(date +%s)
-  echo "$id rc=$r $((t1-t0))s $(echo "$out" | grep -E '^(VIOLATION|KNOWN-FINDING|INCONCLUSIVE|UNWOUND|VACUOUS|UNCONFIRMED)' | head -3 | tr '\n' ';')"
-  [ $r -ne 0 ] && rc=1
-done
-exit $rc
+one() {
+  id=$1; tier=$2; t0=$(date +%s)
+  ./bin/check $id $tier > /tmp/verif-runall/$id.log 2>&1; rc=$?
+  echo "$id rc=$rc $(( $(date +%s)-t0 ))s $(grep -E '^(VIOLATION|KNOWN-FINDING|INCONCLUSIVE|UNWOUND|VACUOUS|UNCONFIRMED)' /tmp/verif-runall/$id.log | cut -c1-120 | head -4 | tr '\n' ';')"
+  return $rc
+}
+export -f one
+echo $ids | tr ' ' '\n' | xargs -P $lanes -I{} bash -c "one {} $tier"
